@@ -18,9 +18,12 @@ struct MmioModel {
     ApbpModel c2d, d2c;
     u16 icu_request = 0;
     int fifo[2] = {0, 0};
-    // timers (always paused in this scenario): restart copies start into the counter and, if MU, into the mirror
+    // timers (paused in this scenario unless in event-count mode, where only EW writes count): restart copies start into the
+    // counter and, if MU, into the mirror; an event decrements the counter, mirrors it if MU and requests the interrupt at zero
     bool mu[2] = {false, false};
+    bool paused[2] = {false, false};
     int mode[2] = {0, 0};
+    u32 counter[2] = {0, 0};
 
     MmioModel() {
         std::memset(val, 0, sizeof val);
@@ -32,6 +35,8 @@ struct MmioModel {
         set(0x0E0, 0, 0xFFFF);
         for (u16 t = 0; t < 2; ++t) {
             set((u16)(0x22 + t * 0x10), 0, 0xFFFF);
+            for (u16 o = 0x24; o <= 0x2A; o += 2)
+                set((u16)(o + t * 0x10), 0, 0xFFFF); // start value and counter mirror are 0 after Reset
             set((u16)(0x2CA + t * 0x80), 0, 0xFFFF);
         }
         set(0x202, 0, 0xFFFF);
@@ -144,9 +149,11 @@ struct MmioModel {
             int t = off == 0x20 ? 0 : 1;
             set(off, (u16)(v & ~0x0400), (u16)(plain_mask(off) | 0x0400)); // RES reads 0
             mu[t] = (v >> 9) & 1;
+            paused[t] = (v >> 8) & 1;
             mode[t] = (v >> 2) & 7;
             if ((v & 0x0400) && mode[t] != 2) {
                 // restart: counter := start; mirror follows only when MU
+                counter[t] = (u32)val[off + 4] | (u32)val[off + 6] << 16;
                 if (mu[t]) {
                     u16 lo = (u16)(off + 4), hi = (u16)(off + 6);
                     // mirror := start where the start value is known
@@ -161,8 +168,25 @@ struct MmioModel {
             return allowed;
         }
         case 0x22:
-        case 0x32:
-            return allowed; // event write: timers are paused here, reads 0
+        case 0x32: {
+            // event write (reads 0): counts only in event-count mode, unpaused, with a non-zero counter
+            int t = off == 0x22 ? 0 : 1;
+            if ((v & 1) && !paused[t] && mode[t] == 3 && counter[t] != 0) {
+                --counter[t];
+                if (mu[t]) {
+                    set((u16)(off + 6), (u16)(counter[t] & 0xFFFF), 0xFFFF);
+                    set((u16)(off + 8), (u16)(counter[t] >> 16), 0xFFFF);
+                    allowed.insert((u16)(off + 6));
+                    allowed.insert((u16)(off + 8));
+                }
+                if (counter[t] == 0) {
+                    icu_request |= (u16)(1u << (t == 0 ? 0xA : 0x9));
+                    refresh_status();
+                    allowed.insert(0x200);
+                }
+            }
+            return allowed;
+        }
         case 0x0C0:
         case 0x0C4:
         case 0x0C8:
